@@ -127,7 +127,46 @@ def block_runs(ctx, exe, kind, count):
     return res
 
 
+def replay(ctx, pid, block_kind):
+    """bin/check Cxx --replay <file>: re-run the recorded concrete witness against the current tree."""
+    rep = json.load(open(ctx.replay))
+    ok, out, bins = core.cargo_build(BINS)
+    if not ok:
+        raise RuntimeError("cargo build failed:\n" + out[-3000:])
+    w = rep.get("witness") or {}
+    seed = int(rep.get("seed", ctx.seed))
+    work = os.path.join(ctx.work, "replay")
+    os.makedirs(work, exist_ok=True)
+    again = False
+    if "IncarnationDb" in w.get("kind", ""):
+        m = re.search(r"prop (\d+) (\d+)", w.get("replay", ""))
+        count = int(m.group(2)) if m else 3000
+        rc, out = core.sh([bins["flat"], "prop", str(seed), str(count), work], timeout=1500)
+        res = json.loads(out.strip().splitlines()[-1])
+        again = res["failed_cases"] > 0
+        core.log("replay: in-order property oracle, seed %d, %d cases: %d failing" % (seed, count, res["failed_cases"]))
+        core.log(open(os.path.join(work, "prop.fail")).read()[:2000])
+    elif "Scheduler" in w.get("kind", ""):
+        m = re.search(r"flatblock (\w+) (\d+) (\d+) <outdir> (\d+)", w.get("replay", ""))
+        kind, count, idx = (m.group(1), m.group(3), m.group(4)) if m else (block_kind, "200", "0")
+        rc, out = core.sh([bins["flatblock"], kind, str(seed), count, work, idx], timeout=600)
+        core.log(out[-1500:])
+        f = os.path.join(work, "block-%s-%s.cases" % (kind, idx))
+        txt = open(f).read() if os.path.exists(f) else ""
+        core.log(txt[:2000])
+        again = "MISMATCH" in txt or rc == 124
+    else:
+        core.log("replay: the recorded violation has no concrete witness (broken: %s)" % rep.get("broken"))
+    if again:
+        core.log("VIOLATION property=%s replay=%s" % (pid, ctx.replay))
+        return 1
+    core.log("OK property=%s replay did not reproduce on the current tree" % pid)
+    return 0
+
+
 def run_property(ctx, pid, block_kind, what):
+    if ctx.replay:
+        return replay(ctx, pid, block_kind)
     proof = core.proof_stage(pid, extra_targets=[EXTRACT, "Flat/Examples.vo"], tier=ctx.tier)
     for p in proof["problems"]:
         core.log("proof-stage problem:", p)
